@@ -51,6 +51,17 @@ ClauseProp ==
     dec_alloc      |-> {"C05"},
     dec_time       |-> {"C05"},
     in_unchanged   |-> {"C16"},
+    deep_accept    |-> {"C15"},
+    deep_reject    |-> {"C15"},
+    deep_nocrash   |-> {"C15", "C05"},
+    deep_monotone  |-> {"C15"},
+    deep_synth     |-> {"MACHINERY"},
+    rej_err        |-> {"C13"},
+    rej_panic      |-> {"C13"},
+    rej_nofault    |-> {"C13"},
+    rej_nowrite    |-> {"C13"},
+    rej_nostore    |-> {"C13"},
+    rej_stable     |-> {"C13"},
     rt_ok          |-> {"C01"},
     rt_n           |-> {"C01"},
     rt_val         |-> {"C01"} ]
@@ -126,6 +137,43 @@ JDecode(ty, in, dest, obs) ==
                   ELSE {}
         ELSE If(obs.out = "err", "dec_reject") ) ]
 FailDecode(ty, in, dest, obs) == JDecode(ty, in, dest, obs).fail
+
+\* ---- deeply nested messages (C15) ------------------------------------------
+\* The driver synthesises a message nested `levels` deep (it says); when the message is
+\* small enough to be part of the line (hasin) the claim is re-derived from the bytes and
+\* the whole decode is judged as usual.  track = [maxok, minrej] of this pattern so far.
+JDeep(line, track) ==
+  LET obs == line.obs
+      accepted == obs.out = "ok"
+      base == IF obs.out \in {"panic", "crash", "timeout"} THEN {"deep_nocrash"}
+              ELSE IF line.levels <= AlwaysAcceptedDepth
+                   THEN If(accepted /\ obs.n = line.len, "deep_accept")
+                   ELSE If(accepted \/ IsProto(obs, DEPTH_LIMIT), "deep_reject")
+      mono == IF accepted THEN If(track.minrej < 0 \/ line.d < track.minrej, "deep_monotone")
+              ELSE If(line.d > track.maxok, "deep_monotone")
+      full == IF "in" \in DOMAIN line /\ obs.out \notin {"panic", "crash", "timeout"}
+              THEN LET r == Dec(line.ty, line["in"], line.dest) IN
+                   If(r.st = "ok" /\ r.d = line.levels /\ r.n = line.len, "deep_synth") \cup
+                   (IF r.st = "ok" /\ accepted THEN If(obs.n = r.n /\ SameStruct(line.ty, obs.val, r.v), "dec_val") ELSE {})
+              ELSE {} IN
+  [ fail |-> base \cup mono \cup full,
+    cls |-> "Deep/" \o (IF line.levels <= AlwaysAcceptedDepth THEN "<=48" ELSE ">48") \o ">" \o obs.out ]
+
+\* ---- unsupported definitions and arguments (C13) ---------------------------------
+\* prev: the outcome signature of the previous identical call, or "" if this is the first
+RejSig(obs) == obs.out \o (IF obs.out = "panic" /\ obs.rt THEN "/runtime" ELSE "")
+JReject(line, prev) ==
+  LET obs == line.obs IN
+  [ cls |-> "Reject/" \o line.entry \o ">" \o obs.out,
+    fail |->
+      If(obs.out # "crash", "rej_nofault") \cup
+      (IF obs.out = "crash" THEN {}
+       ELSE (IF line.entry = "size"
+             THEN If(obs.out = "panic" /\ ~obs.rt, "rej_panic")      \* an ordinary Go panic
+             ELSE If(obs.out = "err", "rej_err")) \cup
+            If(obs.dhi < 0, "rej_nowrite") \cup
+            If(obs.dpre = obs.dpost, "rej_nostore") \cup
+            If(prev = "" \/ prev = RejSig(obs), "rej_stable")) ]
 
 \* round trip (C01): the decode of frugal's own output for value orig
 FailRoundTrip(ty, orig, in, obs) ==
